@@ -13,7 +13,9 @@ import (
 	"pgregory.net/rapid"
 )
 
-var rewriteOps = []string{"reindent", "comments", "rename", "blanklines", "crlf"}
+var rewriteOps = []string{"reindent", "comments", "rename", "blanklines", "crlf",
+	// added by the checklist audit: more layouts of the same token sequence
+	"whitespace", "edges", "cr"}
 
 type tok struct {
 	typ  int
@@ -207,6 +209,35 @@ func rewriteWith(op, text string, pick func(n int) int) string {
 				}
 			case 2: // blank lines with trailing white space
 				toks[i].text = strings.Replace(toks[i].text, "\n", "\n \t\n", 1)
+			}
+		}
+	case "whitespace":
+		// the blanks between two tokens of a line become a tab, a run of blanks, a form feed or a mix
+		unit := []string{"\t", "    ", "\f", " \t \f "}[pick(4)]
+		for i := range toks {
+			if toks[i].typ == parser.JavaLexerWS && !strings.ContainsAny(toks[i].text, "\n\r") {
+				toks[i].text = unit
+			}
+		}
+	case "edges":
+		// white space in front of the first token and after the last one; no final newline
+		mode := pick(4)
+		if mode == 0 || mode == 3 {
+			toks = append([]tok{{parser.JavaLexerWS, []string{"\n\n", " \t\n", "\r\n\r\n"}[pick(3)]}}, toks...)
+		}
+		if mode == 1 || mode == 3 {
+			toks = append(toks, tok{parser.JavaLexerWS, []string{"\n\n\n", "  \t", "\r\n \r\n", "\f"}[pick(4)]})
+		}
+		if mode == 2 {
+			for len(toks) > 0 && toks[len(toks)-1].typ == parser.JavaLexerWS {
+				toks = toks[:len(toks)-1]
+			}
+		}
+	case "cr":
+		// line ends of old Mac files
+		for i := range toks {
+			if toks[i].typ == parser.JavaLexerWS {
+				toks[i].text = strings.ReplaceAll(strings.ReplaceAll(toks[i].text, "\r\n", "\n"), "\n", "\r")
 			}
 		}
 	case "crlf":
